@@ -112,6 +112,39 @@ def run(cx: Cx):
                      where=comp.where)
 
     isr = cx.fn(CORE + 'Model.is_running')
+    # completion is a fact about the model: the status lives in the model object itself, not in an object the model merely refers to
+    # (model.systems, model.environment are public attributes and can be replaced - completion would be replaced with them)
+    own = True
+    for p in cx.walker.paths(isr, WalkOptions(unroll=1)):
+        fs = [e.data['formula'] for e in p.events if e.kind == 'cond']
+        v0 = p.last.data.get('value') if p.end == 'return' else None
+        from sa.terms import BoolT as _BT
+        if isinstance(v0, _BT):
+            fs.append(v0.f)
+        for f0 in fs:
+            for a in atoms_of(f0):
+                if status_atom_kind(cx, a) in ('running', 'not-running'):
+                    o = _status_owner(a)
+                    import ast as _ast
+                    props_ = [m for m in prog.lookup_method(prog.cls(CORE + 'Model'), '_status') if m.is_property and not m.is_setter]
+                    props_ = [m for m in props_ if not (len(m.body) == 1 and isinstance(m.body[0], _ast.Return) and
+                                                        isinstance(m.body[0].value, _ast.Attribute) and isinstance(m.body[0].value.value, _ast.Name)
+                                                        and m.params and m.body[0].value.value.id == m.params[0])]
+                    if props_:
+                        o = o if o != Sym(isr.params[0]) else Attr(o, '<property _status>')
+                    if o is not None and o != Sym(isr.params[0]):
+                        own = False
+                        cx.violation('R-DISC', isr.qualname, 'status-kept-in-the-model-itself',
+                                     f"is_running() reads the status from {o!r}, not from the model object itself: whoever replaces that "
+                                     f"object (a public attribute) replaces the completion with it, so a completed model can run again",
+                                     where=cx.where(isr, p.last.line if p.last else None))
+                        break
+            if not own:
+                break
+        if not own:
+            break
+    if own:
+        cx.ok('R-DISC', 'the status is a field of the model object itself', where=cx.where(isr), function=isr.qualname)
     for p in cx.walker.paths(isr, WalkOptions(unroll=1)):
         v = p.last.data.get('value') if p.end == 'return' else None
         from sa.walker import _Ctx, State
@@ -274,6 +307,52 @@ def run(cx: Cx):
                              f"{k} calls {tg[0].qualname}() directly: the call bypasses the scheduler's completed-model guard (and its "
                              f"start / end / frequency window), so a system runs on a model that is already complete",
                              where=cx.where(kfn, c.line) if kfn else '')
+    # the same through a receiver the nominal types cannot see: `<something looked up in the registry or the queue>.execute()`
+    from sa.terms import subterms_of, Fresh
+    from sa.walker import PathExplosion
+    from .common import strip_versions
+
+    def _from_registry(t, p, depth=0):
+        t = strip_versions(t)
+        for y in subterms_of(t):
+            if isinstance(y, Attr) and y.name in ('systems', 'execution_queue') and not isinstance(t, Attr):
+                return True
+            if isinstance(y, App) and ('SystemManager.__getitem__' in y.fn or 'SystemManager.get' in y.fn):
+                return True
+        if isinstance(t, Sym) and depth < 3:
+            for e in p.events:
+                if e.kind == 'iter' and e.data['info'].get('var') == t:
+                    it = strip_versions(e.data['info'].get('iter'))
+                    d = getattr(it, 'detail', None)
+                    if d is not None and getattr(d, 'elt', None) is not None and _from_registry(d.elt, p, depth + 1):
+                        return True
+                    if _from_registry(it, p, depth + 1) or (isinstance(it, Fresh) and any(_from_registry(a, p, depth + 1) for a in (it.items or ()))):
+                        return True
+        return False
+    hidden = None
+    for k in sorted(cx.effects.unresolved):
+        kfn = cx.prog.functions.get(k.split('#')[0])
+        if kfn is None or k.split('#')[0] == sched or not any(c.data.get('callee_name') == '.execute' for c in cx.effects.unresolved[k]):
+            continue
+        if kfn.name == 'execute' and kfn.cls is not None and cx.prog.is_subclass(kfn.cls, sysc):
+            continue
+        if cx.effects.public_roots(kfn) == {sched}:
+            continue
+        try:
+            kps = cx.walker.paths(kfn, WalkOptions(unroll=1))
+        except PathExplosion:
+            kps = cx.walker.paths(kfn, WalkOptions(unroll=0))
+        for p in kps:
+            for e in p.events:
+                if e.kind == 'call' and e.data.get('target_kind') == 'unknown' and e.data.get('callee_name') == '.execute' and \
+                        not e.data.get('args') and not e.data.get('kw') and _from_registry(e.data.get('recv'), p):
+                    hidden = hidden or (k, kfn, e)
+    if hidden:
+        k, kfn, e = hidden
+        cx.violation('R-GUARD', k, 'systems-run-through-the-scheduler-only',
+                     f"{k} calls .execute() on {e.data.get('recv')!r}, an object taken from the system registry / queue: the call bypasses the "
+                     f"scheduler's completed-model guard (and the start / end / frequency window), so a system runs on a model that is "
+                     f"already complete", where=cx.where(kfn, e.line))
     cx.ok('R-GUARD', f"System.execute is called by the scheduler only ({nsite} call sites examined)", where=cx.where(cx.fn(sched)), function=sched)
 
     # ------------------------------------------------------------ clause 3: batch drivers
